@@ -126,6 +126,15 @@ def run(repo, tier):
     out += randomize_rule(repo, sub_ok)
     out += multisubstitute_rule(repo, sub_ok)
 
+    # ---------------------------------------------------------------- acceptance of in-range positions
+    out += accept_rule(repo, "substitute", lambda ai, st: [ge(Lin.atom("start"), 0),
+                                                        ge(Lin.atom("X.shape[-1]"), Lin.atom("start") + Lin.atom(ai.shape_atom(st, "motif", -1)))])
+    out += accept_rule(repo, "insert", lambda ai, st: [ge(Lin.atom("start"), 0), ge(Lin.atom("X.shape[-1]"), Lin.atom("start"))])
+    out += accept_rule(repo, "delete", lambda ai, st: [ge(Lin.atom("start"), 0), ge(Lin.atom("end"), Lin.atom("start") + 1),
+                                                    ge(Lin.atom("X.shape[-1]"), Lin.atom("end"))])
+    out += accept_rule(repo, "randomize", lambda ai, st: [ge(Lin.atom("start"), 0), ge(Lin.atom("end"), Lin.atom("start") + 1),
+                                                       ge(Lin.atom("X.shape[-1]"), Lin.atom("end"))])
+
     # ---------------------------------------------------------------- purity
     for fname, params in (("substitute", ["X", "motif"]), ("insert", ["X", "motif"]), ("delete", ["X"]),
                           ("multisubstitute", ["X", "motifs", "spacing"]), ("randomize", ["X", "probs"])):
@@ -204,6 +213,45 @@ def cat_composition(fi, ai, kinds):
             ob += [("suffix begins at end", q - e), ("suffix begins at end'", e - q)]
         return ob
     return [decide_states(ai, fi, ret, mk, "R-LEN", role)]
+
+
+def accept_rule(repo, fname, valid, module=ERSATZ, rule="R-ACCEPT"):
+    """no range guard rejects a position / span that lies wholly inside the sequence: for every `raise` whose guard mentions the
+    position parameters, (path constraints and 'wholly inside') must be contradictory"""
+    from ..affine import consistent_model, cone, SearchLimit, _infeasible
+    fi = repo.func(module + "." + fname)
+    ai = AbsInt(fi, int_params={"start", "end", "n"})
+    pm = {}
+    for n in ast.walk(fi.node):
+        for c in ast.iter_child_nodes(n):
+            pm[c] = n
+    role = "every position / span lying wholly inside the sequence is accepted (no over-rejecting range guard)"
+    n_r = 0
+    for rz, st in ai.raises:
+        g = rz
+        while g in pm and not isinstance(g, ast.If):
+            g = pm[g]
+        if not isinstance(g, ast.If) or not ({"start", "end"} & {x.id for x in ast.walk(g.test) if isinstance(x, ast.Name)}):
+            continue
+        n_r += 1
+        st = st.copy()
+        V = valid(ai, st)
+        G = [c for c in st.G] + V + [ge(Lin.atom("X.shape[-1]"), 1)]
+        seed = Lin(0, {a: 1 for v in V for a in v.atoms()})
+        Gc = cone(G, seed)
+        if _infeasible(Gc):
+            continue
+        try:
+            m = consistent_model(Gc, [], scope=(-2, 8))
+        except SearchLimit:
+            return [unrecognised(rule, fi, role, "search budget exhausted", rz)]
+        if m is not None:
+            wit = {k: v for k, v in sorted(m.items()) if k in ("start", "end") or k.endswith("shape[-1]")}
+            return [violation(rule, fi, role, "guard `%s` raises for a position that lies wholly inside the sequence, e.g. %s" % (
+                unparse(g.test)[:70], wit), g, witness={"assignment": wit})]
+    if n_r == 0:
+        return [unrecognised(rule, fi, role, "no range guard found")]
+    return [holds(rule, fi, role, "%d raising range-guard path(s), each contradicts 'wholly inside'" % n_r, fi.node)]
 
 
 def calls_to(fi, name):
